@@ -169,6 +169,7 @@ def run():
     try:
         rlimit_obligation(rep, ctx)
         users(rep, ctx)
+        throttle_obligation(rep, ctx)
     except Inconclusive as e:
         o = Obligation("users of the semaphore", "E2 mirsym/z3")
         o.verdict, o.detail = "inconclusive", str(e)
@@ -296,4 +297,69 @@ def users(rep, ctx):
         except Exception as ex:   # noqa
             o.verdict = "inconclusive"
             o.detail += "; native driver: %s" % str(ex)[-200:]
+    rep.add(o)
+
+
+def throttle_obligation(rep, ctx):
+    """rehash's feeder (the thread that walks the size groups and queues hashing tasks): exactly one permit of the task-throttle
+    semaphore is acquired per queued task, by the feeder itself, right before the spawn.  The permits are released by the tasks, so
+    a feeder that needs k > capacity permits before it spawns the task that would release them blocks for ever ("grouping cannot
+    hang because of the semaphore").  E2 over the feeder closure with the iterator as a free source (loops unrolled twice): on every
+    path the acquisitions and spawns alternate 1:1.  Replay: the real binary on a file with more hard links than the semaphore has
+    permits, under a time limit."""
+    prog = ctx.lib
+    rh = prog.find(r"^(group::)?rehash$")
+    feeders = []
+    for n, g in prog.fns.items():
+        if not (n == rh.name or n.startswith(rh.name + "::{closure#")):
+            continue
+        if any(b.term and b.term[0] == "call" and re.search(r"spawn_fifo|ThreadPool::spawn", b.term[2]) for b in g.blocks.values()):
+            feeders.append(g)
+    if len(feeders) != 1:
+        raise Inconclusive("feeder of rehash: %d candidates" % len(feeders))
+    import optsum
+    eng = oblig.engine(prog, unroll=2, inline=None, extra=dict(optsum.SUMMARIES))
+    ps = eng.run(feeders[0])
+
+    def prop(p):
+        seq = ["A" if re.search(r"Semaphore::access(_owned)?$", ev.callee) else "S" for ev in p.events
+               if ev.kind == "call" and re.search(r"Semaphore::access(_owned)?$|spawn_fifo$|ThreadPool::spawn$", ev.callee)]
+        if not seq:
+            return None
+        txt = "".join(seq)
+        return z3.BoolVal(bool(re.fullmatch(r"(AS)+A?", txt)))
+    o = oblig.check_paths(eng, ps, "rehash feeder: one task-throttle permit is acquired per queued task, by the feeder, right before the spawn (never several before one spawn)",
+                          prop, oblig.fnames(eng), bounds="loops unrolled twice, iterator results free", key="semaphore:users:throttle-one-permit-per-task",
+                          allow=("return", "panic", "diverge", "bound"))
+    if o.verdict == "violated":
+        import native
+        import subprocess
+        import tempfile
+        import shutil
+        from common import scratch_root
+        try:
+            binary = native.build_binary(ctx.src)
+            d = tempfile.mkdtemp(prefix="c19t.", dir=scratch_root())
+            try:
+                with open(os.path.join(d, "orig"), "wb") as f:
+                    f.write(b"T" * 20000)
+                shutil.copy(os.path.join(d, "orig"), os.path.join(d, "copy"))
+                for i in range(40):
+                    os.link(os.path.join(d, "orig"), os.path.join(d, "h%02d" % i))
+                hung = []
+                for extra in ([], ["--match-links"]):
+                    try:
+                        subprocess.run([binary, "group", "--threads", "1"] + extra + [d], stdout=subprocess.PIPE, stderr=subprocess.PIPE, timeout=60)
+                    except subprocess.TimeoutExpired:
+                        hung.append(" ".join(["group", "--threads", "1"] + extra))
+                if hung:
+                    o.stats["traces_validated"] = 1
+                    o.cex = dict(o.cex or {}, native="`fclones %s` on a file with 41 names and a copy does not finish within 60 s" % hung[0])
+                    o.detail += "; replayed natively: `fclones %s <dir>` (a file with 41 hard links and one copy) hangs (60 s limit)" % hung[0]
+                else:
+                    o.detail += "; native run with 41 hard links finishes"
+            finally:
+                shutil.rmtree(d, ignore_errors=True)
+        except Inconclusive as ex:
+            o.detail += "; native build failed: %s" % str(ex)[:120]
     rep.add(o)
